@@ -10,11 +10,16 @@ from pygradflow.iterate import Iterate
 from pygradflow.linear_solver import LinearSolver, LinearSolverError
 from pygradflow.params import Params
 from pygradflow.problem import Problem
+from pygradflow.step.step_solver_error import StepSolverError
 from pygradflow.util import norm_mult
 
 
 class StepResult:
     def __init__(self, orig_iterate, dx, dy, active_set, rcond=None):
+        if not (np.isfinite(dx).all() and np.isfinite(dy).all()):
+            # e.g. an overflowing right-hand side: a failed step, not a trial point
+            raise StepSolverError("Non-finite Newton step")
+
         self.orig_iterate = orig_iterate
         self.dy = dy
         self.active_set = active_set
